@@ -52,6 +52,19 @@ var c17Durs = []int64{0, 1000000, 5000000000, 999999, -1500000, 9223372036854775
 
 var c17Cids = []string{"cid0", "cid1", "é", "x"}
 
+// c17Foreign is a third-party FContext implementation: it has the FContext methods only (it is
+// NOT an FContextWithEphemeralProperties), so the package-level frugal.Clone takes its generic branch.
+type c17Foreign struct{ frugal.FContext }
+
+// c17ForeignEP is a third-party FContextWithEphemeralProperties.
+type c17ForeignEP struct {
+	frugal.FContextWithEphemeralProperties
+}
+
+func (f c17ForeignEP) Clone() frugal.FContextWithEphemeralProperties {
+	return c17ForeignEP{f.FContextWithEphemeralProperties.Clone()}
+}
+
 type c17Proto struct {
 	p  *frugal.FProtocol
 	tr *thrift.TMemoryBuffer
@@ -224,7 +237,7 @@ func c17Exec(prog []byte, start uint64) (string, []string, map[string]int) {
 	i := 0
 	need := func(n int) bool { return i+n <= len(prog) }
 	for i < len(prog) {
-		code := int(prog[i]) % 20
+		code, variant := int(prog[i])%20, int(prog[i])/20
 		i++
 		w.nops++
 		before := w.snapshot()
@@ -255,7 +268,26 @@ func c17Exec(prog []byte, start uint64) (string, []string, map[string]int) {
 				obs = append(obs, "bad")
 				break
 			}
-			cl := frugal.Clone(w.ctxs[c])
+			// every way a clone comes into being: the method, the package-level function on the library's
+			// own context, on a foreign FContext without ephemeral properties (the GENERIC branch of
+			// frugal.Clone) and on a foreign FContextWithEphemeralProperties
+			var cl frugal.FContext
+			generic := false
+			switch variant % 4 {
+			case 0:
+				cl = w.ctxs[c].(frugal.FContextWithEphemeralProperties).Clone()
+				w.kinds["clone:method"]++
+			case 1:
+				cl = frugal.Clone(w.ctxs[c])
+				w.kinds["clone:package"]++
+			case 2:
+				cl = frugal.Clone(c17Foreign{w.ctxs[c]})
+				generic = true
+				w.kinds["clone:package on foreign FContext (generic branch)"]++
+			case 3:
+				cl = frugal.Clone(c17ForeignEP{w.ctxs[c].(frugal.FContextWithEphemeralProperties)})
+				w.kinds["clone:package on foreign FContextWithEphemeralProperties"]++
+			}
 			obs = append(obs, w.created(cl, -1))
 			// clone equals original (as it was just before) except _opid
 			o, n := before.ctxs[c], c17SnapOf(cl)
@@ -272,7 +304,11 @@ func c17Exec(prog []byte, start uint64) (string, []string, map[string]int) {
 			if !mapsEqual(o.resp, n.resp) {
 				w.fail("clone of %d: response headers differ", c)
 			}
-			if !mapsEqual(o.eph, n.eph) {
+			if generic {
+				if len(n.eph) != 0 {
+					w.fail("generic clone of %d: ephemeral properties not empty", c)
+				}
+			} else if !mapsEqual(o.eph, n.eph) {
 				w.fail("clone of %d: ephemeral properties differ", c)
 			}
 			if o.timeout != n.timeout {
@@ -391,10 +427,68 @@ func c17Exec(prog []byte, start uint64) (string, []string, map[string]int) {
 				obs = append(obs, "bad")
 				break
 			}
-			if code == 11 {
-				obs = append(obs, "t="+strconv.FormatInt(int64(w.ctxs[c].Timeout()), 10))
-			} else {
-				obs = append(obs, c17ValOut(w.ctxs[c].CorrelationID(), true))
+			// consumers of a context; (variant/3)%2 == 1: through a foreign wrapper (only the FContext interface)
+			ctx := w.ctxs[c]
+			if (variant/3)%2 == 1 {
+				ctx = c17Foreign{ctx}
+			}
+			switch {
+			case code == 11 && variant%3 == 0:
+				obs = append(obs, "t="+strconv.FormatInt(int64(ctx.Timeout()), 10))
+			case code == 11 && variant%3 == 1:
+				cctx, cancel := frugal.ToContext(ctx)
+				_, has := cctx.Deadline()
+				cancel()
+				if has != (before.ctxs[c].timeout > 0) {
+					w.fail("ToContext of %d: deadline present=%v but Timeout()=%d", c, has, before.ctxs[c].timeout)
+				}
+				obs = append(obs, map[bool]string{true: "f=1", false: "f=0"}[has])
+				w.kinds["consume:ToContext"]++
+			case code == 11:
+				id, err := frugal.VerifGetOpID(ctx)
+				switch {
+				case err == nil:
+					obs = append(obs, "n="+strconv.FormatUint(id, 10))
+					if hv, e2 := strconv.ParseUint(before.ctxs[c].req["_opid"], 10, 64); e2 != nil || hv != id {
+						w.fail("getOpID of %d returned %d, header is %q", c, id, before.ctxs[c].req["_opid"])
+					}
+				case strings.Contains(err.Error(), "required"):
+					obs = append(obs, "err:missingOpId")
+				default:
+					obs = append(obs, "err:badOpId")
+				}
+				w.kinds["consume:getOpID"]++
+			case variant%3 == 0:
+				obs = append(obs, c17ValOut(ctx.CorrelationID(), true))
+			default:
+				// serialise through an FProtocol, decode the frame with the independent reader of the
+				// documented layout: it must be exactly the context's map
+				tr := thrift.NewTMemoryBuffer()
+				p := binFactory.GetProtocol(tr)
+				var err error
+				want := before.ctxs[c].req
+				if variant%3 == 1 {
+					err = p.WriteRequestHeader(ctx)
+				} else {
+					err, want = p.WriteResponseHeader(ctx), before.ctxs[c].resp
+				}
+				w.kinds["consume:WriteRequest/ResponseHeader"]++
+				if err != nil {
+					obs = append(obs, errClass(err))
+					w.fail("serialising context %d failed", c)
+					break
+				}
+				l, rest, ok := specDecode(tr.Bytes())
+				m, nodup := listToMap(l)
+				if !ok || len(rest) != 0 || !nodup {
+					w.fail("serialised headers of context %d do not decode (torn frame)", c)
+					obs = append(obs, "m=?")
+					break
+				}
+				if !mapsEqual(m, want) {
+					w.fail("serialised headers of context %d differ from its header map", c)
+				}
+				obs = append(obs, "m="+pairs(m))
 			}
 			w.checkFrame(before, -1, "", -1)
 		case 13, 14, 15:
@@ -623,6 +717,10 @@ func runC17(r *Rng, n int) {
 		Stat("evaluations")
 	}
 	c17Stress(r, 8, 400+n*4)
+	// free-running concurrent cases on ONE context, each in a child process (contextheap_conc.go)
+	for kind := 0; kind < 3; kind++ {
+		c17ConcGen(r, kind, 4000+n*20)
+	}
 }
 
 // c17Class strips positions/indices so that shrinking compares the same kind of failure.
@@ -785,7 +883,7 @@ func (s *c17Shared) publish(c frugal.FContext) {
 // own last write is what it reads back (directly, through the copying accessor
 // and in a clone it makes) whatever the others do. Verdict: no panic, no fatal
 // error (would kill the process), all op ids distinct, own writes read back.
-func c17Stress(r *Rng, goroutines, iters int) {
+func c17Stress(r *Rng, goroutines, iters int) bool {
 	atomic.StoreUint64(frugal.VerifNextOpIDCounter(), r.U64()%(1<<40))
 	sh := &c17Shared{}
 	idsOf := func(c frugal.FContext) string { v, _ := c.RequestHeader("_opid"); return v }
@@ -806,7 +904,7 @@ func c17Stress(r *Rng, goroutines, iters int) {
 	ids := make([][]string, goroutines)
 	problems := make([][]string, goroutines)
 	var wg sync.WaitGroup
-	outcome := guard(120*time.Second, func() {
+	outcome := guard(20*time.Second+time.Duration(iters)*time.Millisecond/4, func() {
 		for g := 0; g < goroutines; g++ {
 			wg.Add(1)
 			gr := NewRng(r.U64())
@@ -953,9 +1051,10 @@ func c17Stress(r *Rng, goroutines, iters int) {
 		}
 		OracleFail("C17 concurrent stress failed", map[string]interface{}{"outcome": outcome, "duplicate_or_missing_ids": dups, "problems": all})
 		Stat("stress:failed")
-	} else {
-		Stat("stress:runs ok")
+		return false
 	}
+	Stat("stress:runs ok")
+	return true
 }
 
 // runC17Race: the same stress, meant for the -race build of this harness (bin/props_d/c17.py
@@ -964,7 +1063,12 @@ func c17Stress(r *Rng, goroutines, iters int) {
 func runC17Race(r *Rng, n int) {
 	r = c17Reseed(r)
 	for round := 0; round < 4; round++ {
-		c17Stress(r, 4+4*round, n)
+		if !c17Stress(r, 4+4*round, n) {
+			break // goroutines of a failed round may be stuck for ever; do not pile up more
+		}
+	}
+	for kind := 0; kind < 3; kind++ { // the child is this (-race) binary: a race report ends it with exit 66
+		c17ConcGen(r, kind, 1500+n)
 	}
 	for i := 0; i < 50; i++ {
 		prog, start := c17Gen(r, 40), c17Start(r)
